@@ -57,7 +57,9 @@ def gen_case(rng, n_ev_files=None):
         if rows and rng.random() < 0.3:
             rows.append(list(rows[0][:1]) + ["9.75", "0.01", "0.75"] + rows[0][4:])     # duplicate PSM id: later row wins
         rng.shuffle(rows)
-        pouts.append({"rows": rows})
+        # Percolator >= 3.06 writes a "filename" column (the name of the pin file) next to the PSM id: for Andromeda input it is not
+        # the raw file - that one is the prefix of the PSM id
+        pouts.append({"rows": rows, "filename_col": rng.choice([None, None, "andromeda.tab", ""])})
     return {"ev_files": ev_files, "pouts": pouts}
 
 
@@ -82,9 +84,10 @@ def write_inputs(case, d):
         p = os.path.join(d, f"pout_{chr(ord('Z') - i)}.tab")
         with open(p, "w", newline="") as fh:
             w = csv.writer(fh, delimiter="\t")
-            w.writerow(["PSMId", "score", "q-value", "posterior_error_prob", "peptide", "proteinIds"])
+            fc = f.get("filename_col")
+            w.writerow(["PSMId"] + (["filename"] if fc is not None else []) + ["score", "q-value", "posterior_error_prob", "peptide", "proteinIds"])
             for r in f["rows"]:
-                w.writerow(r)
+                w.writerow(r[:1] + ([fc] if fc is not None else []) + r[1:])
         pouts.append(p)
     return evs, pouts
 
